@@ -70,7 +70,9 @@ func omniMain(args []string) error {
 	out := fs.String("out", "", "trace")
 	dir := fs.String("dir", os.TempDir(), "scratch")
 	seed := fs.Int64("seed", 1, "seed")
+	prod := fs.String("prod", "", "production binary: run the service as cmd/omniwitness in a child process (a restart is a SIGKILL)")
 	_ = fs.Parse(args)
+	omniProdBin = *prod
 	f, err := os.Open(*in)
 	if err != nil {
 		return err
@@ -108,6 +110,18 @@ type omniSvc struct {
 	cancel context.CancelFunc
 	done   chan error
 	addr   string
+	proc   *prodProc
+}
+
+// omniProdBin, when set, makes the service under observation the production binary instead of an in-process omniwitness.Main.
+var omniProdBin string
+
+func startOmniProd(w *world.World, yaml, dir, tag, db string) (*omniSvc, error) {
+	p, err := startProd(prodCfg{Bin: omniProdBin, Dir: dir, Tag: tag, Yaml: yaml, WitSKey: w.WitKey.SKey(), DB: db, Poll: omniInterval, Dist: omniDistURL})
+	if err != nil {
+		return nil, err
+	}
+	return &omniSvc{addr: p.api, proc: p}, nil
 }
 
 // distSink is a stub distributor: it records what the service's REST distributor pushes.
@@ -164,6 +178,13 @@ func startOmni(w *world.World, p persistence.LogStatePersistence) (*omniSvc, err
 }
 
 func (s *omniSvc) stop() string {
+	if s.proc != nil {
+		if !s.proc.alive() {
+			return "the production binary had exited: " + tailOf(s.proc.log.String(), 600)
+		}
+		s.proc.kill()
+		return ""
+	}
 	s.cancel()
 	select {
 	case err := <-s.done:
@@ -220,6 +241,9 @@ func execOmni(s omniSched, dir string, seed int64) ([]any, error) {
 	var db *sql.DB
 	dbPath := filepath.Join(dir, "omni-"+tag+".db")
 	openStore := func() error {
+		if omniProdBin != "" {
+			return nil
+		}
 		if durable {
 			var err error
 			db, err = sql.Open("sqlite3", dbPath)
@@ -246,10 +270,25 @@ func execOmni(s omniSched, dir string, seed int64) ([]any, error) {
 	sink := newDistSink()
 	defer sink.srv.Close()
 	omniDistURL = sink.srv.URL
-	svc, err := startOmni(w, pers)
+	start := func() (*omniSvc, error) {
+		if omniProdBin != "" {
+			dbp := ""
+			if durable {
+				dbp = dbPath
+			}
+			return startOmniProd(w, yaml, dir, tag, dbp)
+		}
+		return startOmni(w, pers)
+	}
+	svc, err := start()
 	if err != nil {
 		return nil, err
 	}
+	defer func() {
+		if svc != nil && svc.proc != nil && svc.proc.alive() {
+			svc.proc.kill()
+		}
+	}()
 	events := []any{omniEvent{E: "omni.start", Run: tag, Durable: durable, N: s.Start}}
 	// what the distributor pushed since the last look: projected, with path and signature checks
 	drainPuts := func() {
@@ -387,7 +426,7 @@ func execOmni(s omniSched, dir string, seed int64) ([]any, error) {
 			if err := openStore(); err != nil {
 				return nil, err
 			}
-			svc, err = startOmni(w, pers)
+			svc, err = start()
 			if err != nil {
 				return nil, err
 			}
